@@ -109,6 +109,10 @@ def contract_workload(res, ctx):
                               {'file': data})
                 continue
             res.count('records_via_container', n)
+        # records of several dumps decoded at the same time (generators advanced alternately)
+        from props import c02
+        for _ in range(ctx.pick(10, 100)):
+            c02.interleaved_parses(res, rng, rng.choice((('v2', 'v2'), ('v2', 'v3'), ('v3', 'v3'))), prefix='c01')
     finally:
         undo()
     res.count('contract_evaluations', log.evaluations)
